@@ -42,7 +42,6 @@ if (vinfo[0] <= 2) and (vinfo[1] < 5): # < 2.5:
 
 def in_polygon(pos, polygon):
     """Tests if the (2-D) point a lies within a given polygon."""
-    tolerance = 1.e-6
     numcrossings = 0
     ref = polygon[0]
     v = pos - ref
@@ -51,10 +50,9 @@ def in_polygon(pos, polygon):
         i2 = (i+1) % len(polygon)
         p2 = polygon[i2] - ref
         if p1[1] <= v[1] < p2[1] or p2[1] <= v[1] < p1[1]:
-            d = p2 - p1
-            if abs(d[1]) > tolerance:
-                x = p1[0] + (v[1] - p1[1]) * d[0] / d[1]
-                if v[0] < x: numcrossings += 1
+            d = p2 - p1 # (d[1] is non-zero, as the edge spans v[1])
+            x = p1[0] + (v[1] - p1[1]) * d[0] / d[1]
+            if v[0] < x: numcrossings += 1
     return (numcrossings % 2)
 
 def in_rectangle(pos, rect):
